@@ -45,7 +45,7 @@ func genC14(t *rapid.T) interface{} {
 		ns := rapid.IntRange(1, maxSteps).Draw(t, "nsteps")
 		var p []string
 		for j := 0; j < ns; j++ {
-			p = append(p, rapid.SampledFrom([]string{"acquire", "acquire", "get", "create", "update", "update", "release"}).Draw(t, "step"))
+			p = append(p, rapid.SampledFrom([]string{"acquire", "acquire", "get", "create", "update", "update", "release", "renew-same", "get"}).Draw(t, "step"))
 		}
 		c.Programs = append(c.Programs, p)
 	}
@@ -169,6 +169,9 @@ func c14RunOnce(c *c14Case, choices []int) (*c14Result, error) {
 		return err
 	}
 	programs := make([]func(ctx context.Context), n)
+	// the record each candidate last wrote successfully: "renew-same" writes it again unchanged (a renewal retried
+	// within the same second encodes to the same bytes)
+	lastRec := make([]*resourcelock.LeaderElectionRecord, n)
 	for i := 0; i < n; i++ {
 		i := i
 		programs[i] = func(ctx context.Context) {
@@ -182,13 +185,24 @@ func c14RunOnce(c *c14Case, choices []int) (*c14Result, error) {
 					mu.Lock()
 					curStep[i] = "create"
 					mu.Unlock()
-					err := locks[i].Create(mkRecord(id))
+					rec := mkRecord(id)
+					err := locks[i].Create(rec)
+					if err == nil {
+						lastRec[i] = &rec
+					}
 					results[i] = append(results[i], apiRes{"create", err})
-				case "update":
+				case "update", "renew-same":
 					mu.Lock()
 					curStep[i] = "update"
 					mu.Unlock()
-					err := locks[i].Update(mkRecord(id))
+					rec := mkRecord(id)
+					if step == "renew-same" && lastRec[i] != nil {
+						rec = *lastRec[i]
+					}
+					err := locks[i].Update(rec)
+					if err == nil {
+						lastRec[i] = &rec
+					}
 					results[i] = append(results[i], apiRes{"update", err})
 				case "release":
 					// what client-go's release() writes: a record with an empty holder
@@ -206,14 +220,22 @@ func c14RunOnce(c *c14Case, choices []int) (*c14Result, error) {
 							mu.Lock()
 							curStep[i] = "create"
 							mu.Unlock()
-							err = locks[i].Create(mkRecord(id))
+							rec := mkRecord(id)
+							err = locks[i].Create(rec)
+							if err == nil {
+								lastRec[i] = &rec
+							}
 							results[i] = append(results[i], apiRes{"create", err})
 						}
 					} else {
 						mu.Lock()
 						curStep[i] = "update"
 						mu.Unlock()
-						err = locks[i].Update(mkRecord(id))
+						rec := mkRecord(id)
+						err = locks[i].Update(rec)
+						if err == nil {
+							lastRec[i] = &rec
+						}
 						results[i] = append(results[i], apiRes{"update", err})
 					}
 				}
@@ -323,7 +345,7 @@ func runC14(ci interface{}, st *CaseStats) error {
 
 var specC14 = &Spec{
 	ID:          "C14",
-	Rule:        "case = 2..3 candidates (real resourcelock.Interface from election.NewResourceLockManager over one shared store, each behind its own shim), each with 1..5 steps from {get, create, update, release = update to an empty holder, acquire = client-go protocol get->create|update} (so protocol-breaking programs occur), optionally a pre-existing record, and a schedule over the storage steps; exhaustive shards: 2 candidates x <=3 steps with EVERY schedule enumerated per case. Oracle = register model of the record in commit order: a create is accepted only on an absent record, an update only if the record equals what that candidate last read or created, API success <=> storage accepted the write, stored record = last accepted write, every read returns the last accepted write. Non-trivial = some candidate performs a step between another candidate's get and its following write; distinct = SHA-1 of the case",
+	Rule:        "case = 2..3 candidates (real resourcelock.Interface from election.NewResourceLockManager over one shared store, each behind its own shim), each with 1..5 steps from {get, create, update, renew-same = update that writes the candidate's last accepted record again unchanged, release = update to an empty holder, acquire = client-go protocol get->create|update} (so protocol-breaking programs occur), optionally a pre-existing record, and a schedule over the storage steps; exhaustive shards: 2 candidates x <=3 steps with EVERY schedule enumerated per case. Oracle = register model of the record in commit order: a create is accepted only on an absent record, an update only if the record equals what that candidate last read or created, API success <=> storage accepted the write, stored record = last accepted write, every read returns the last accepted write. Non-trivial = some candidate performs a step between another candidate's get and its following write; distinct = SHA-1 of the case",
 	Gen:         genC14,
 	New:         func() interface{} { return &c14Case{} },
 	Run:         runC14,
